@@ -31,7 +31,7 @@ Lemma inv_transfer X X' W W' D T G G' s s' :
   (forall e o sl, In e (G' o sl) -> alive s o = true /\ fits (tagof s e) (tagof s o) sl = true) ->
   (forall o sl, alive s o = false -> G' o sl = []) ->
   (forall b, ginner s b = true -> G' b SMem = []) ->
-  (forall p m, alive s p = true -> tagof s p = TO KPool -> In m (G' p SMem) -> In m (pres s p)) ->
+  (forall p m, alive s p = true -> tagof s p = TO KPool -> ~ In p W' -> In m (G' p SMem) -> In m (pres s p)) ->
   (forall m, alive s m = true -> tagof s m = TO KMem -> ~ In m X' -> obuf s m <> None) ->
   (forall v h, vars s v = Some h -> ~ In h X' -> alive s h = true) ->
   (forall o, alive s o = true -> ~ In o W' -> live_ok G' s o) ->
@@ -41,7 +41,7 @@ Proof.
   pose proof (home_same _ _ Hs) as Hh.
   destruct Hs as (H1 & H2 & H3 & H4 & H5 & H6 & H7 & H8 & H9 & H10 & H11 & H12 & H13 & H14 & H15 & H16 & H17 & H18).
   destruct Hi as [Aheap Amem1 Amem2 Aown Afresh Atag Adead Ainner Aitag Ainj Aiown Agin Apres Adev Abuf Acur Acurinj
-                  Ahand Avars Avinj AT ATnd Alive Alognd Alog AD Acs].
+                  Ahand Avars Avinj AT ATnd Alive Alognd Alog AD Acs Apb].
   constructor; rewrite ?H1, ?H2, ?H3, ?H4, ?H5, ?H6, ?H7, ?H8, ?H9, ?H10, ?H11, ?H12, ?H13, ?H14, ?H15, ?H16, ?H17, ?H18.
   - exact Hk.
   - intros e o sl. rewrite Hh. apply M1.
@@ -70,6 +70,7 @@ Proof.
   - exact Alog.
   - exact AD.
   - intros d st Ha Ht Hw. apply Acs; try assumption. intros H. apply Hw. now apply HW.
+  - intros p Ha Ht Hw. apply Apb; try assumption. intros H. apply Hw. now apply HW.
 Qed.
 
 Lemma inv_weaken_X X W D T G s e :
@@ -90,9 +91,11 @@ Proof.
   intros Hi. constructor; try solve [apply Hi].
   - intros p b Ha Hw. apply (i_inner _ _ _ _ _ _ _ Hi p b Ha). intros H. apply Hw. now right.
   - intros b Ha Ht Hg Hw. apply (i_inner_own _ _ _ _ _ _ _ Hi b Ha Ht Hg). intros H. apply Hw. now right.
+  - intros p m Ha Ht Hw. apply (i_pres _ _ _ _ _ _ _ Hi p m Ha Ht). intros H. apply Hw. now right.
   - intros d Ha Ht Hw. apply (i_cur _ _ _ _ _ _ _ Hi d Ha Ht). intros H. apply Hw. now right.
   - intros x k Ha Ht Hw. apply (i_live _ _ _ _ _ _ _ Hi x k Ha Ht). intros H. apply Hw. now right.
   - intros d st Ha Ht Hw. apply (i_cur_str _ _ _ _ _ _ _ Hi d st Ha Ht). intros H. apply Hw. now right.
+  - intros p Ha Ht Hw. apply (i_pool_buf _ _ _ _ _ _ _ Hi p Ha Ht). intros H. apply Hw. now right.
 Qed.
 
 (* members of rings are alive, typed, not exempt *)
@@ -147,7 +150,8 @@ Proof.
   - intros b Hb. destruct (i_ginner _ _ _ _ _ _ _ Hi b Hb) as [_ Hg].
     destruct (upd2_cases G o sl (ring_remove e (G o sl)) b SMem) as [(Eb & Es & E)|(Hd & E)]; rewrite E; [|exact Hg].
     subst b sl. rewrite Hg. reflexivity.
-  - intros p m Ha Ht Hm. destruct (Hsub _ _ _ Hm) as [Hm1 _]. apply (i_pres _ _ _ _ _ _ _ Hi p m Ha Ht Hm1).
+  - intros p m Ha Ht Hpw Hm. destruct (Hsub _ _ _ Hm) as [Hm1 _]. apply (i_pres _ _ _ _ _ _ _ Hi p m Ha Ht); [|exact Hm1].
+    intros H. apply Hpw. now apply HW.
   - intros m Ha Ht Hx. apply (i_buf _ _ _ _ _ _ _ Hi m Ha Ht). intros H. apply Hx. now right.
   - intros v h Hv Hx. apply (i_vars _ _ _ _ _ _ _ Hi v h Hv). intros H. apply Hx. now right.
   - intros o' Ha Hw. destruct (Nat.eq_dec o' o) as [->|Hne]; [now apply HL|].
@@ -160,7 +164,7 @@ Qed.
 Lemma inv_link X W D T G s s1 o sl e :
   inv (e :: X) W D T G s -> ~ In e X -> alive s e = true -> home s e = Some (o, sl) ->
   alive s o = true -> fits (tagof s e) (tagof s o) sl = true ->
-  (sl = SMem -> ginner s o = false /\ (tagof s o = TO KPool -> In e (pres s o))) ->
+  (sl = SMem -> ginner s o = false /\ (tagof s o = TO KPool -> ~ In o W -> In e (pres s o))) ->
   same_obj s s1 -> heap_ok s1 (upd2 G o sl (G o sl ++ [e])) ->
   inv X W D T (upd2 G o sl (G o sl ++ [e])) s1.
 Proof.
@@ -195,8 +199,8 @@ Proof.
   - intros b Hb. destruct (i_ginner _ _ _ _ _ _ _ Hi b Hb) as [_ Hg].
     destruct (upd2_cases G o sl (G o sl ++ [e]) b SMem) as [(Eb & Es & E)|(Hd & E)]; rewrite E; [|exact Hg].
     subst b sl. destruct (Hsm eq_refl). congruence.
-  - intros p m Ha Ht Hm. destruct (Hsub _ _ _ Hm) as [Hm1|(-> & -> & Es)].
-    + apply (i_pres _ _ _ _ _ _ _ Hi p m Ha Ht Hm1).
+  - intros p m Ha Ht Hpw Hm. destruct (Hsub _ _ _ Hm) as [Hm1|(-> & -> & Es)].
+    + apply (i_pres _ _ _ _ _ _ _ Hi p m Ha Ht Hpw Hm1).
     + subst sl. destruct (Hsm eq_refl) as [_ H]. now apply H.
   - intros m Ha Ht Hx. destruct (Nat.eq_dec m e) as [->|Hne].
     + unfold home in Hhome. rewrite Ht in Hhome. destruct (obuf s e); congruence.
@@ -226,7 +230,7 @@ Proof.
   { destruct (Nat.lt_ge_cases h (nxt s)) as [H|H]; [exact H|].
     destruct (i_fresh _ _ _ _ _ _ _ Hi h H) as (_ & Ht & _). congruence. }
   destruct Hi as [Aheap Amem1 Amem2 Aown Afresh Atag Adead Ainner Aitag Ainj Aiown Agin Apres Adev Abuf Acur Acurinj
-                  Ahand Avars Avinj AT ATnd Alive Alognd Alog AD Acs].
+                  Ahand Avars Avinj AT ATnd Alive Alognd Alog AD Acs Apb].
   constructor; simpl_st; try assumption.
   - destruct Aheap. constructor; simpl_st; assumption.
   - intros e o sl Hin. destruct (Amem1 e o sl Hin) as [H1 H2]. split; [|exact H2].
@@ -248,7 +252,7 @@ Lemma inv_drop_X X W D T G s e :
 Proof.
   intros Hi Hnx Hh Hv.
   destruct Hi as [Aheap Amem1 Amem2 Aown Afresh Atag Adead Ainner Aitag Ainj Aiown Agin Apres Adev Abuf Acur Acurinj
-                  Ahand Avars Avinj AT ATnd Alive Alognd Alog AD Acs].
+                  Ahand Avars Avinj AT ATnd Alive Alognd Alog AD Acs Apb].
   constructor; try assumption.
   - intros x o sl Hin. destruct (Amem1 x o sl Hin) as [H1 H2]. split; [exact H1|]. intros H. apply H2. now right.
   - intros x o sl Ha Hx Hhx. apply Amem2; try assumption. intros [<-|H]; [|contradiction].
